@@ -1,7 +1,10 @@
 """C16 — SLIP39 shares: any threshold subset recovers, fewer never yield a secret.
 
 Theorems: lean/EmbitModel/Props/C16.lean (tables, GF(256) field, interpolation = Lagrange, any-k-recover,
-Feistel inverse, share text round trip, RS1024 create/verify and 1-3 word error detection, refusal logic).
+Feistel inverse, share text round trip, RS1024 create/verify and 1-3 word error detection, refusal logic) and
+lean/EmbitModel/Props/C16X.lean (mnemonic/parse = encodeShare/decodeShare of the standard's bit layout for
+extendable flag 0; two-level recovery on valid sets = the standard's combineShares; any sufficient two-level set
+(supersets included) recovers; fewer groups / fewer members refused).
 Tie: every op below is run on embit (randomness injected through the `randint` argument, deterministic from
 the seed) and on the Lean model / spec through the driver; the property predicate is also evaluated directly
 on embit (c.fail) without the model:
@@ -27,7 +30,7 @@ from embit.wordlists.slip39 import SLIP39_WORDS as W
 from embit.bip39 import mnemonic_from_bytes, mnemonic_to_bytes
 
 PROP = "C16"
-MODS = ["EmbitModel.Props.C16"]
+MODS = ["EmbitModel.Props.C16", "EmbitModel.Props.C16X"]
 WIDX = {w: i for i, w in enumerate(W)}
 
 
@@ -317,7 +320,7 @@ def check_parse_idx(c, idx, kind, expect_reject=False, to_driver=True, spec=True
     if to_driver:
         c.expect("share.parse " + tl(idx), r, info, proven=True)
         if spec and (s is None or s.exponent < 16):
-            c.expect("share.decode.spec " + tl(idx), r, info, proven=False)
+            c.expect("share.decode.spec " + tl(idx), r, info, proven=True)     # share_parse_eq_spec
     if s is not None:
         if expect_reject:
             c.fail("a corrupted share mnemonic was accepted (%s)" % kind, dict(info, op="share.parse", parsed=r))
@@ -370,9 +373,18 @@ def check_share_fields(c, n):
         m = s.mnemonic()
         idx = idx_of(m)
         c.tally("share.new:ok:sbl%d" % f["share_bit_length"])
-        c.expect("share.mnemonic " + toks, "ok " + tl(idx), info, proven=False)
+        # share_mnemonic_eq_spec: the model's mnemonic is the standard's encodeShare for extendable flag 0
+        c.expect("share.mnemonic " + toks, "ok " + tl(idx), info, proven=f["exponent"] < 16)
         if f["exponent"] < 16:
-            c.expect("share.encode.spec " + toks, "ok " + tl(idx), info, proven=False)
+            c.expect("share.encode.spec " + toks, "ok " + tl(idx), info, proven=True)
+        else:
+            # extendable bit set: the standard's text differs in the checksum only (customisation string)
+            def rel(out, idx=idx):
+                o = out.split()
+                same_data = o[:1] == ["ok"] and o[2:-3] == [str(x) for x in idx[:-3]]
+                return "data-words-equal checksum-differs" if same_data and o[-3:] != [str(x) for x in idx[-3:]] else out
+            c.expect("share.encode.spec " + toks, "data-words-equal checksum-differs", info, proven=True, canon=rel)
+            c.tally("share.extbit:checked")
         back = check_parse_idx(c, idx, "printed")
         if back is None or share_toks(back) != share_toks(s):
             c.fail("parse(mnemonic(share)) is not the share", dict(info, op="share.text", mnemonic=m))
@@ -632,10 +644,35 @@ def check_two_level(c, rounds):
                 groups.append([(mt, Share(size * 8, ident, e, gi, gt, gn, mi, mt, int.from_bytes(mb, "big")).mnemonic())
                                for mi, mb in members])
             info = {"secret": secret.hex(), "groups": [[m for _, m in g] for g in groups], "gt": gt, "passphrase": pw.hex()}
+            # exact sets (valid in the sense of the standard): gt groups, from each exactly its member threshold
+            for rep in range(3):
+                chosen = []
+                for g in rng.sample(groups, gt):
+                    chosen += [m for _, m in rng.sample(g, g[0][0])]
+                rng.shuffle(chosen)
+                if rep == 2:
+                    # one share value corrupted (checksum repaired): digest failure or, without digest, another secret
+                    j = rng.randrange(len(chosen))
+                    sj = Share.parse(chosen[j])
+                    chosen[j] = reprint(chosen[j], value=sj.value ^ (1 << rng.randrange(size * 8)))
+                einfo = dict(info, chosen=chosen, exact=True, corrupted=(rep == 2))
+                got = expect_recover(c, "fake", chosen, pw, einfo, proven=True)          # group_recover_eq_spec
+                c.expect("slip39.validset.spec " + tmnems(chosen), "ok 1", einfo, proven=True)
+                c.expect("slip39.combine.spec fake %s %s" % (hx(pw), tmnems(chosen)),
+                         "ok " + hx(got) if got is not None else "none", einfo, proven=True)
+                c.count(("twolevel-exact", tuple(chosen)), True)
+                c.tally("twolevel-exact:" + ("corrupted:" if rep == 2 else "") + ("recovered" if got is not None else "refused"))
+                if rep != 2 and got != secret:
+                    c.fail("a valid (exact) group share set did not return the secret",
+                           dict(einfo, op="twolevel-exact", got=(got.hex() if got is not None else None)))
+                if rep == 2 and got == secret:
+                    c.fail("a corrupted share value went unnoticed", dict(einfo, op="twolevel-exact"))
             for _ in range(6):
                 chosen = []
                 full_groups = 0
                 short = False
+                exact = True
+                ngroups = 0
                 for g in groups:
                     mt = g[0][0]
                     cnt = rng.choice([0, mt, mt, len(g), max(mt - 1, 0), rng.randrange(0, len(g) + 1)])
@@ -645,18 +682,35 @@ def check_two_level(c, rounds):
                         full_groups += 1
                     elif cnt > 0:
                         short = True
+                    if cnt > 0:
+                        ngroups += 1
+                        exact = exact and cnt == mt
+                exact = exact and ngroups == gt
                 if not chosen:
                     continue
                 rng.shuffle(chosen)
-                got = expect_recover(c, "fake", chosen, pw, dict(info, chosen=chosen), proven=False)
+                # every case is covered by a theorem of Props/C16X: exact -> group_recover_eq_spec; all present groups
+                # complete and >= gt of them -> two_level_sufficient_set_recovers; a group below its member threshold ->
+                # fewer_members_refused; fewer than gt groups (then gt >= 2) -> fewer_groups_refused
+                got = expect_recover(c, "fake", chosen, pw, dict(info, chosen=chosen), proven=True)
+                # the standard accepts exactly the exact sets; embit also accepts supersets
+                c.expect("slip39.validset.spec " + tmnems(chosen), "ok %d" % (1 if exact else 0), dict(info, chosen=chosen),
+                         proven=True)
+                if exact:
+                    c.expect("slip39.combine.spec fake %s %s" % (hx(pw), tmnems(chosen)),
+                             "ok " + hx(got) if got is not None else "none", dict(info, chosen=chosen), proven=True)
                 c.count(("twolevel", tuple(chosen)), True)
-                c.tally("twolevel:" + ("recovered" if got is not None else "refused"))
+                c.tally("twolevel:" + ("recovered" if got is not None else "refused") + (":exact" if exact else ""))
                 if got is not None and got != secret:
                     c.fail("group share set returned a wrong secret", dict(info, op="twolevel", chosen=chosen, got=got.hex()))
                 if got is None and full_groups >= gt and not short:
                     c.fail("a sufficient group share set was refused", dict(info, op="twolevel", chosen=chosen))
                 if got is not None and full_groups < gt:
                     c.fail("an insufficient group share set returned a secret", dict(info, op="twolevel", chosen=chosen, got=got.hex()))
+                if got is not None and short:
+                    # fewer_members_refused: a group below its member threshold raises even if enough others are complete
+                    c.fail("a set with a group below its member threshold returned a secret",
+                           dict(info, op="twolevel", chosen=chosen, got=got.hex()))
 
 
 def check_crypt(c, mode, n):
@@ -721,6 +775,10 @@ def check_vectors(c, limit=None):
         except KeyError:
             continue
         c.expect(req, r, info, proven=False)
+        # the standard's two-level combination (Spec/Slip39Groups.lean) on the official vectors: the valid ones are
+        # exact sets and give the published secret, the invalid ones are refused
+        c.expect("slip39.combine.spec real %s %s" % (hx(b"TREZOR"), tmnems(ms)), "ok " + exp if exp is not None else "none",
+                 info, proven=True)
         if exp is not None and r != "ok " + exp:
             c.fail("official SLIP-0039 vector not recovered", dict(info, op="vector", got=r, expected=exp))
         if exp is None and st == "ok":
@@ -829,6 +887,14 @@ def replay(path):
         print("model/spec:", run_driver([r["request"]])[0][:2000])
         print("impl (as recorded):", r.get("impl", "")[:2000])
         req = r["request"].split(" ")
+        if req[0] in ("slip39.recover", "slip39.combine.spec"):
+            import ast as _ast
+            ms_idx, pos, cnt = [], 4, int(req[3])
+            for _ in range(cnt):
+                ln = int(req[pos]); ms_idx.append([int(x) for x in req[pos + 1: pos + 1 + ln]]); pos += 1 + ln
+            with kdf(req[1]):
+                got, exc = impl_recover([words_of(ix) for ix in ms_idx], bytes.fromhex(req[2]) if req[2] != "-" else b"")
+            print("impl (now):", ("ok " + hx(got)) if got is not None else "none (%r)" % exc)
         if req[0] == "share.parse":
             idx = [int(x) for x in req[2:]]
             st, s = guarded(lambda: Share.parse(words_of(idx)))
@@ -880,5 +946,7 @@ def replay(path):
                 st, got = guarded(lambda: ShareSet([Share.parse(m) for m in r[key]]).recover(pw), 120)
             print("impl recover :", ("ok " + hx(got)) if st == "ok" else "none (%r)" % got)
             print("model recover:", run_driver(["slip39.recover %s %s %s" % (md, hx(pw), tmnems(r[key]))])[0])
+            print("spec validSet:", run_driver(["slip39.validset.spec " + tmnems(r[key])])[0])
+            print("spec combine :", run_driver(["slip39.combine.spec %s %s %s" % (md, hx(pw), tmnems(r[key]))])[0])
             return 0
     return 0
